@@ -1,2 +1,126 @@
--- stub driver for C17: replaced when the property's model exists
-def main : IO Unit := pure ()
+import Snel.Model.Proto
+import Snel.Model.ParserCmd
+open Snel Snel.Proto Snel.Parser
+
+/-! Driver for C17. Ops:
+* `p <hex utf8 input> <classes>` → canonical rendering of `parse_command`'s result;
+  `<classes>`: one digit per non-ASCII character of the input in order of occurrence
+  (bit 0 `is_alphanumeric`, bit 1 `is_numeric`, bit 2 `is_whitespace` according to Rust's std), or `-`.
+* `f <neg 0|1> <int digits> <frac digits>` → `d<16 hex>` bit pattern of the parsed f64 or `nonfinite`.
+* `d <Variant>` → `handled` | `unreachable`.
+* `t <hex> <classes>` → token list.
+-/
+
+def hx (s : Str) : String := hexOfBytes (String.ofList s).toUTF8.toList
+
+def ho (o : Option Str) : String := match o with | none => "-" | some s => "s" ++ hx s
+
+def hl (l : List Str) : String := "[" ++ ",".intercalate (l.map hx) ++ "]"
+
+def hlo (o : Option (List Str)) : String := match o with | none => "-" | some l => hl l
+
+def hex16 (n : Nat) : String :=
+  String.ofList ((List.range 16).reverse.map fun i => hexDigit ((n / 16 ^ i) % 16))
+
+def rValue : Value → String
+  | .str s => "s" ++ hx s
+  | .int i => "i" ++ toString i
+  | .float b => "d" ++ hex16 b
+  | .bool b => if b then "b1" else "b0"
+
+def rExpr : Expr → String
+  | .cmp f op v => s!"(cmp {hx f} {op.name} {rValue v})"
+  | .inList f vs => s!"(in {hx f} [{",".intercalate (vs.map rValue)}])"
+  | .and a b => s!"(and {rExpr a} {rExpr b})"
+  | .or a b => s!"(or {rExpr a} {rExpr b})"
+  | .not a => s!"(not {rExpr a})"
+
+def rAgg : Agg → String
+  | .count u => "count:" ++ ho u
+  | .countField f => "countField:" ++ hx f
+  | .total f => "total:" ++ hx f
+  | .avg f => "avg:" ++ hx f
+  | .min f => "min:" ++ hx f
+  | .max f => "max:" ++ hx f
+
+def rLink : Link → String
+  | .followedBy => "F" | .precededBy => "P"
+
+def rNat (o : Option Nat) : String := match o with | none => "-" | some n => toString n
+
+def rQuery (q : Query) : String :=
+  let w := match q.whereClause with | none => "-" | some e => rExpr e
+  let ord := match q.orderBy with | none => "-" | some (f, d) => hx f ++ ":" ++ (if d then "1" else "0")
+  let aggs := match q.aggs with | none => "-" | some l => "[" ++ ",".intercalate (l.map rAgg) ++ "]"
+  let tb := match q.timeBucket with | none => "-" | some g => g.name
+  let seq := match q.eventSequence with
+    | none => "-"
+    | some (h, ls) => hx h ++ "(" ++ ",".intercalate (ls.map fun (l, t) => rLink l ++ ":" ++ hx t) ++ ")"
+  s!"Q et={hx q.eventType} ctx={ho q.contextId} since={ho q.since} tf={ho q.timeField} stf={ho q.seqTimeField} w={w} lim={rNat q.limit} off={rNat q.offset} ord={ord} ret={hlo q.returnFields} link={ho q.linkField} aggs={aggs} tb={tb} gb={hlo q.groupBy} seq={seq}"
+
+def rCmd1 : Cmd1 → String
+  | .query q => rQuery q
+  | .replay r => s!"R et={ho r.eventType} ctx={hx r.contextId} since={ho r.since} tf={ho r.timeField} ret={hlo r.returnFields}"
+  | .store s => s!"S et={hx s.eventType} ctx={hx s.contextId} json={hx s.json}"
+  | .remember n q => s!"M name={hx n} {rQuery q}"
+  | .showMaterialized n => s!"SHOWMAT {hx n}"
+  | .ping => "PING"
+  | .flush => "FLUSH"
+  | .createUser u k r => s!"CREATEUSER {hx u} key={ho k} roles={hlo r}"
+  | .revokeKey u => s!"REVOKEKEY {hx u}"
+  | .listUsers => "LISTUSERS"
+  | .grant p e u => s!"GRANT {hl p} {hl e} {hx u}"
+  | .revokePerm p e u => s!"REVOKEPERM {hl p} {hl e} {hx u}"
+  | .showPermissions u => s!"SHOWPERMS {hx u}"
+
+def rCommand : Command → String
+  | .single c => rCmd1 c
+  | .batch cs => "B[" ++ ";".intercalate (cs.map rCmd1) ++ "]"
+
+def rRes : Res Command → String
+  | .ok c => "ok " ++ rCommand c
+  | .error => "error"
+  | .panic => "panic"
+  | .oof => "oof"
+  | .unmodelled => "unmodelled"
+
+def rToken : Token → String
+  | .word w => "W" ++ hx w
+  | .number r => "N" ++ hx r
+  | .str s => "S" ++ hx s
+  | .sym c => "Y" ++ hx [c]
+  | .lbrace => "{" | .rbrace => "}" | .semi => ";" | .lbrack => "[" | .rbrack => "]"
+  | .lparen => "(" | .rparen => ")" | .invalid => "INVALID"
+
+def decodeInput (h cls : String) : Option (Str × Uni) := do
+  let bytes ← unhex h
+  let s ← String.fromUTF8? (ByteArray.mk bytes.toArray)
+  let cs := s.toList
+  let na := cs.filter (fun c => c.toNat ≥ 128)
+  let masks ← if cls == "-" then some [] else cls.toList.mapM (fun c => if '0' ≤ c ∧ c ≤ '7' then some (c.toNat - 48) else none)
+  if masks.length ≠ na.length then none else
+  let tab := na.zip masks
+  let look (bit : Nat) (c : Char) : Bool := match tab.lookup c with | some m => (m / bit) % 2 == 1 | none => false
+  some (cs, ⟨look 1, look 2, look 4⟩)
+
+def answer (line : String) : String :=
+  match words line with
+  | ["p", h, cls] =>
+    (match decodeInput h cls with
+     | some (cs, U) => rRes (parseCommand U cs)
+     | none => "bad-op")
+  | ["t", h, cls] =>
+    (match decodeInput h cls with
+     | some (cs, U) => " ".intercalate ((tokenize U cs).map rToken)
+     | none => "bad-op")
+  | ["f", ng, ip, fp] =>
+    if (ng == "0" || ng == "1") && ip.toList.all isDigit && fp.toList.all isDigit && !ip.isEmpty && !fp.isEmpty then
+      (match f64OfDec (ng == "1") ip.toList fp.toList with
+       | some b => "d" ++ hex16 b
+       | none => "nonfinite")
+    else "bad-op"
+  | ["d", v] => if Gen.C17.commandVariants.contains v then
+      (match dispatchVariant v with | .handled => "handled" | .unreachable => "unreachable") else "bad-op"
+  | _ => "bad-op"
+
+def main : IO Unit := serve answer
